@@ -53,7 +53,21 @@ def make_case(seed, idx, tier):
                 lv["pop"] = max(lv["pop"], 10)
         rmin = min(b[1] - b[0] for b in d["box"]["bounds"])
         d["sprout"]["far"] = rmin * 0.02
-    d["objective_form"] = ["closure", "lambda", "callable"][idx % 3]
+    d["objective_form"] = ["closure", "lambda", "callable", "plain", "callable", "lambda", "plain"][idx % 7]
+    if idx % 16 == 9:
+        # a large snapshot (population 40 in 8 dimensions, > 64 KiB of history after two metaepochs) of a tree whose objective is an instance
+        # of an importable plain-data class, with an engine that holds lambdas (MWEA) behind the histories: a dump that tries one pickler
+        # and falls back to another must end up with one loadable stream
+        d2 = gen.gen_tree_case(gen.case_rng("C19", seed, idx, "big"), {"dim": (8, 8), "root": "mwea", "leaf": ["sea", "mwea", "de"][(idx // 16) % 3], "levels": [1, 2], "gsc": "melimit",
+                                                                      "lscs": ["dontstop"], "stacks": False, "fams": ["rastrigin", "sphere"], "boxes": ["sym"], "hibernation": False,
+                                                                      "entry": "tree", "max_gens": 3, "sprout": "simple", "seeded_p": 1.0})
+        d2["levels"][0]["pop"] = 40
+        d2["levels"][0]["gens"] = 3
+        d2["levels"][0].pop("election_group_size", None)
+        d2["gsc"] = {"k": "melimit", "n": 4}
+        d2["objective_form"] = "plain"
+        d2["big_snapshot"] = True
+        d = d2
     if idx % 8 == 3:
         # dump purity on a tree that holds NaN fitness values (objective undefined in a region): comparing two such individuals draws
         # from Python's global generator in this library, so *any* look at "the best" while dumping would alter the global random state.
@@ -165,6 +179,10 @@ def run_case(desc):
                     rng_state = (np.random.get_state(), random.getstate())
                     tree.pickle_dump(path)
                     cov["dumps"] += 1
+                    if desc.get("objective_form") == "plain":
+                        cov["dumps_of_a_tree_whose_objective_is_a_plain_data_instance"] += 1
+                        if os.path.getsize(path) > 128 * 1024:
+                            cov["dumps_larger_than_128_KiB_with_a_plain_data_objective"] += 1
                     if raw_digest(tree) != before:
                         viol("pickle_dump altered the live tree", k=k)
                     if rng_fingerprint() != rng_b:
